@@ -51,7 +51,7 @@ func checkICC(r *ev.Run, c *Case, key string, viaAuto bool) {
 		if bad != "" {
 			name, data := c.name(), c.Data
 			r.Violate(key+"/"+l.Name, fmt.Sprintf("%s.Load: %s [%s]", l.Name, bad, name),
-				map[string]interface{}{"loader": l.Name, "name": name, "len": len(data), "data_hex_first_512": hexHead(data, 512)}, nil)
+				map[string]interface{}{"loader": l.Name, "name": name, "len": len(data), "data_hex_first_65536": hexHead(data, 65536)}, nil)
 		}
 	}
 }
@@ -78,7 +78,7 @@ func exactOrError(r *ev.Run, c *Case, orig []byte, key string) {
 	if bad != "" {
 		name, data := c.name(), c.Data
 		r.Violate(key+"/"+l.Name, fmt.Sprintf("%s.Load: %s [%s]", l.Name, bad, name),
-			map[string]interface{}{"loader": l.Name, "name": name, "len": len(data), "data_hex_first_512": hexHead(data, 512)}, nil)
+			map[string]interface{}{"loader": l.Name, "name": name, "len": len(data), "data_hex_first_65536": hexHead(data, 65536)}, nil)
 	}
 }
 
